@@ -379,6 +379,10 @@ func Orchestrate(cfg OrchConfig) int {
 	if unlisted > 0 {
 		return 1
 	}
+	if m.incon["harness-panic"] > 0 {
+		fmt.Fprintf(os.Stderr, "%d group(s) died with a panic in the harness itself (see the harness-panic records in %s): the check is broken\n", m.incon["harness-panic"], logDir)
+		return 2
+	}
 	if broken {
 		fmt.Fprintln(os.Stderr, "check is inconclusive/broken: a child did not finish (see messages above)")
 		return 2
